@@ -1,10 +1,18 @@
 package chainsim
 
 import (
+	"bytes"
+	"encoding/hex"
 	"fmt"
 	"math/big"
 	"sort"
+	"strings"
 	"time"
+
+	abci "github.com/tendermint/tendermint/abci/types"
+	"github.com/tendermint/tendermint/crypto/merkle"
+
+	"github.com/pokt-network/posmint/store/rootmulti"
 
 	sdk "github.com/pokt-network/posmint/types"
 	authTypes "github.com/pokt-network/posmint/x/auth/types"
@@ -459,3 +467,91 @@ func (e *Exec) firstHalt() string {
 	}
 	return ""
 }
+
+// checkStoreQuery (C14 through BaseApp): a /store/<name>/key query at height q returns the value
+// committed at q (not the working-tree value, not another height's), and its proof verifies against
+// the app hash of q. The query is issued between the transactions of block h, i.e. with uncommitted
+// writes present.
+func (e *Exec) checkStoreQuery(r *replica, ro *ReadOnly, key []byte, resp abci.ResponseQuery, h int64) {
+	parts := strings.Split(strings.TrimPrefix(ro.Path, "/"), "/")
+	if len(parts) != 3 || parts[0] != "store" || parts[2] != "key" || len(key) == 0 {
+		return
+	}
+	name := parts[1]
+	latest := h - 1 // last committed height while block h executes
+	q := ro.Height
+	if q == 0 {
+		q = latest
+	}
+	cm, known := e.committed[q]
+	if _, mounted := map[string]bool{"main": true, "auth": true, "pos": true, "params": true}[name]; !mounted {
+		return
+	}
+	retained := q >= 1 && q <= latest && (q >= latest-r.cfg.Pruning.KeepRecent || (r.cfg.Pruning.KeepEvery != 0 && q%r.cfg.Pruning.KeepEvery == 0))
+	attrs := map[string]string{"prove": fmt.Sprint(ro.Prove), "via": "baseapp"}
+	e.res.Stats.C("store_queries_checked", 1)
+	if !retained || !known {
+		if len(resp.Value) != 0 {
+			if known && cm[name][string(key)] == string(resp.Value) {
+				return // still on disk and it IS that height's value
+			}
+			attrs["kind"] = "absent-height"
+			e.addViol(viol("C14", "data-for-absent-height", e.step, attrs, "query %s at height %d (latest %d, pruning %s) returned a value", ro.Path, q, latest, r.cfg.Pruning))
+		}
+		return
+	}
+	if ro.Prove && q <= 1 {
+		return // documented refusal
+	}
+	want, has := cm[name][string(key)]
+	attrs["kind"] = "retained"
+	if string(resp.Value) != want {
+		e.addViol(viol("C14", "value-at-height", e.step, attrs, "query %s key %X at height %d returned %X, committed there: %X (present=%v); latest %d, block %d executing",
+			ro.Path, key, q, resp.Value, want, has, latest, h))
+		return
+	}
+	if has {
+		e.res.Stats.Probe("store_query_present_key")
+	}
+	if !ro.Prove || resp.Proof == nil || len(resp.Proof.Ops) == 0 {
+		return
+	}
+	root := r.hashes[q]
+	if root == nil {
+		return
+	}
+	prt := rootMultiProofRuntime()
+	kp := "/" + name + "/x:" + hex.EncodeToString(key)
+	var err error
+	if has {
+		err = prt.VerifyValue(resp.Proof, root, kp, []byte(want))
+	} else {
+		err = prt.VerifyAbsence(resp.Proof, root, kp)
+	}
+	if err != nil {
+		msg := err.Error()
+		attrs["present"] = fmt.Sprint(has)
+		attrs["reason"] = "other"
+		if !has && (strings.Contains(msg, "need another leaf") || strings.Contains(msg, "left over leaves") || strings.Contains(msg, "COMPUTEHASH") || strings.Contains(msg, "absence not proved")) {
+			attrs["reason"] = "iavl-range-proof-absence"
+		}
+		e.addViol(viol("C14", "proof-verifies-at-height", e.step, attrs, "proof for %s key %X (present=%v) does not verify against the app hash of height %d: %v", ro.Path, key, has, q, err))
+		return
+	}
+	e.res.Stats.C("store_query_proofs_verified", 1)
+	for oh, oroot := range r.hashes {
+		if oh != q && !bytes.Equal(oroot, root) {
+			var e2 error
+			if has {
+				e2 = prt.VerifyValue(resp.Proof, oroot, kp, []byte(want))
+			} else {
+				e2 = prt.VerifyAbsence(resp.Proof, oroot, kp)
+			}
+			if e2 == nil {
+				e.addViol(viol("C14", "proof-verifies-elsewhere", e.step, attrs, "the proof for height %d also verifies against the different app hash of height %d", q, oh))
+			}
+		}
+	}
+}
+
+func rootMultiProofRuntime() *merkle.ProofRuntime { return rootmulti.DefaultProofRuntime() }
